@@ -139,6 +139,30 @@ func (e *Engine) VerifyFunc(fn *ssa.Function, fc *contract.Func) (rep *FuncRepor
 			}
 		}
 	}
+	// stream option: buf[j] == S[base+j]
+	if so, ok := fc.Opts["stream"]; ok {
+		parts := strings.Split(so, ",")
+		if len(parts) != 3 {
+			panic("opt stream=buf,S,base")
+		}
+		for _, p := range fn.Params {
+			if p.Name() == strings.TrimSpace(parts[0]) {
+				sv := st.fr.regs[p].(SliceV)
+				seq := st.fr.ghost[strings.TrimSpace(parts[1])].(SeqV)
+				base := st.fr.ghost[strings.TrimSpace(parts[2])].(IntV).T
+				st.streams = append(st.streams, stream{elemKey: typeKey(sv.Elem), arr: sv.Arr, off: sv.Off, seq: seq, base: base})
+				found := false
+				for _, r := range st.ro {
+					if r.arr == sv.Arr {
+						found = true
+					}
+				}
+				if !found {
+					st.ro = append(st.ro, roArr{elemKey: typeKey(sv.Elem), arr: sv.Arr})
+				}
+			}
+		}
+	}
 	// run the parameter-spilling prefix lazily: lets and requires are evaluated on parameters
 	env := e.funcEnv(st)
 	for _, p := range fn.Params {
@@ -154,8 +178,9 @@ func (e *Engine) VerifyFunc(fn *ssa.Function, fc *contract.Func) (rep *FuncRepor
 	}
 	e.propagateEqualities(st)
 	st.entry = st.clone()
+	ctx.modFields, ctx.modElems, ctx.modAll = e.modTargets(env, fc)
 	// vacuity: requires satisfiable
-	rep.ReqSat = &Oblig{Name: funcDisplay(fn) + "/requires-sat", Kind: "requires-sat", Func: funcDisplay(fn), Hyps: st.pc.list(), Goal: nil}
+	rep.ReqSat = &Oblig{Name: funcDisplay(fn) + "/requires-sat", Kind: "requires-sat", Func: funcDisplay(fn), pc: st.pc, Goal: nil}
 	outs := e.execBlock(st, fn.Blocks[0], 0)
 	for _, o := range outs {
 		ctx.exits++
@@ -174,8 +199,9 @@ func (e *Engine) VerifyFunc(fn *ssa.Function, fc *contract.Func) (rep *FuncRepor
 		for _, en := range fc.Ensures {
 			e.addOblig(o.st, "post", clauseLabel(en), propsOr(en.Props, "SAFETY"), e.evalBool(penv, en.Expr), fn.Pos())
 		}
+		e.frameObligations(o.st, fc)
 		if rep.Canary == nil {
-			rep.Canary = &Oblig{Name: funcDisplay(fn) + "/canary", Kind: "canary", Func: funcDisplay(fn), Hyps: o.st.pc.list(), Goal: nil}
+			rep.Canary = &Oblig{Name: funcDisplay(fn) + "/canary", Kind: "canary", Func: funcDisplay(fn), pc: o.st.pc, Goal: nil}
 		}
 	}
 	return rep
